@@ -84,6 +84,16 @@ def _parse_config_path(config_path: str) -> str:
   spec = importlib.util.find_spec(pkg)  # type: ignore
   if spec is None:
     raise ValueError('Package not found', pkg)
+  if spec.submodule_search_locations:
+    # A package, possibly a namespace package (a plain directory reachable from
+    # the Python path), which has no origin: the file is in one of its
+    # directories.
+    paths = [os.path.join(location, filename)
+             for location in spec.submodule_search_locations]
+    return next((path for path in paths if os.path.isfile(path)), paths[0])
+  if not spec.has_location:
+    # Built-in and frozen modules ('time', 'os', ...) are not on the file system.
+    raise ValueError('Package has no location on the file system', pkg)
   file_sys_path = spec.origin
   # file_sys_path often ends with __init__.py.
   path = os.path.join(os.path.dirname(file_sys_path), filename)
